@@ -372,7 +372,7 @@ def check_truncation_marker(chk, prog, rule):
         chk.fail(rule, SEG + "set_len", "marker-not-synced", "the truncation marker is not fsynced on every path to Ok", b, mt["line"])
 
 
-def check_rollback_reached(chk, prog, hb, hev, hw, sl):
+def check_rollback_reached(chk, prog, hb, hev, hw, sl, rule="R1.6"):
     """R1.6b: the Err result of handle_write always reaches set_len before the reply is sent"""
     from ..gate import switch_on
     hwb = hw[0][0]
@@ -388,6 +388,6 @@ def check_rollback_reached(chk, prog, hb, hev, hw, sl):
         if sw and slb in hb.reach_from([sw[0]]) and not [x for x in must_pass(hb, reply_after, [slb], start=sw[0])]:
             ok = True
     if ok:
-        chk.ok("R1.6", "a failed handle_write always reaches set_len before the reply", hb.where(sl[0][1]["line"]))
+        chk.ok(rule, "a failed handle_write always reaches set_len before the reply", hb.where(sl[0][1]["line"]))
     else:
-        chk.fail("R1.6", hb.path, "rollback-skipped", "there is a path from a failed handle_write to the reply that does not truncate the partial write", hb, sl[0][1]["line"])
+        chk.fail(rule, hb.path, "rollback-skipped", "there is a path from a failed handle_write to the reply that does not truncate the partial write", hb, sl[0][1]["line"])
